@@ -38,6 +38,34 @@ pub fn main(args: &[String]) {
             });
             rep.traces = rep.evaluations;
         }
+        Some("deepchain") => {
+            // a chain of entries in which each one names its predecessor as only child, all ignored but the last: the
+            // depth of the child relation is bounded by the entry count (24 bits) only, the stack by far less
+            let n: usize = arg_after(args, "--n").map(|s| s.parse().unwrap()).unwrap_or(300_000);
+            for (conj, ign) in [(false, true), (true, true), (false, false)] {
+                let entries: Vec<AbsEntry> = (0..n)
+                    .map(|i| AbsEntry { cps: vec![], feats: vec![], ds: vec![], kids: if i == 0 { vec![] } else { vec![i] }, conj,
+                                        ign: ign && i + 1 < n, fmt: "glyph".into(), id: i as u32 + 1 })
+                    .collect();
+                let f = AbsFont { ift: Some(AbsTable { compat: 1, tmpl: "A".into(), entries }), iftx: None };
+                let built = build_font(&f, 1, &[]);
+                let def = AbsDef { cps: vec![0], feats: vec![], ds: vec![], fall: false, dall: false, inverted: false };
+                rep.evaluations += 1;
+                let rj = json!({"mode": "deepchain", "n": n, "conj": conj, "ign": ign});
+                let font = FontRef::new(&built.bytes).unwrap();
+                match guarded(|| intersecting_patches(&font, &def.realise())) {
+                    Err(p) => rep.violation(&format!("a chain of {n} child entries (conjunctive {conj}, ignored {ign}): panic: {p}"), rj.clone()),
+                    Ok(Err(e)) => rep.violation(&format!("a chain of {n} child entries: well-formed mapping rejected: {e}"), rj.clone()),
+                    Ok(Ok(v)) => {
+                        let want = if ign { 1 } else { n };
+                        if v.len() != want {
+                            rep.violation(&format!("a chain of {n} child entries (conjunctive {conj}, ignored {ign}): {} patches offered, {want} expected", v.len()), rj.clone());
+                        }
+                    }
+                }
+            }
+            rep.traces = rep.evaluations;
+        }
         Some("random") => {
             let seed: u64 = arg_after(args, "--seed").map(|s| s.parse().unwrap()).unwrap_or(0);
             let n: usize = arg_after(args, "--n").map(|s| s.parse().unwrap()).unwrap_or(200);
